@@ -128,11 +128,13 @@ def validate(ctx, trace_files, tag, canary=True):
     for (c, ev, law, name) in canaries:
         v = verdicts.pop(c["id"], None)
         if v is None:
-            raise MachineryFault("canary trace %s was not judged" % c["id"])
+            ctx.defer_fault("canary trace %s was not judged" % c["id"])
+            continue
         hits = [x for x in (v["viol"] + v["drift"]) if x["ev"] == ev and x["law"] == law and name in x["names"]]
         others = [x for x in (v["viol"] + v["drift"]) if not (x["ev"] == ev and name in x["names"])]
         if not hits:
-            raise MachineryFault("canary %s was accepted by FrameTrace (validator is vacuous)" % c["id"])
+            ctx.defer_fault("canary %s was accepted by FrameTrace (validator is vacuous)" % c["id"])
+            continue
         ctx.notes.setdefault("canaries_rejected", []).append(c["id"])
         if others and not json.loads(json.dumps(others)) == []:
             # the underlying trace may itself carry breaks (on a defective tree); only the planted one is required
@@ -170,7 +172,7 @@ def run(ctx):
     quick = ctx.tier == "quick"
     ctx.rule = ("one trace per program generated by TLC from spec/FrameGen.tla (exhaustive one-statement and call-pair "
                 "programs, seeded simulation of longer programs), executed by the real interpreter with a read-back of the "
-                "whole pool (48 names: locals of caller and callees incl. a TIME local, re.group.0-2, 6 header names (value, other spelling, sub-field, second header, one starting not set, one starting empty) + 1 variable on each of "
+                "whole pool (49 names: locals of caller and callees incl. a TIME local and a never-assigned STRING local, re.group.0-2, 6 header names (value, other spelling, sub-field, second header, one starting not set, one starting empty) + 1 variable on each of "
                 "req/bereq/beresp/obj/resp) around every executed statement at every call depth; each event is one step of "
                 "spec/FrameTrace.tla; distinct = distinct programs with at least one event")
     ctx.assumptions = [
@@ -220,7 +222,7 @@ def run(ctx):
         ab, rej = to_results(ctx, "%s/%d" % (shape, ms), meta, verdicts)
         tot_ab += ab; tot_rej += rej; tot += len(meta)
     if set(ctx.notes.get("canaries_rejected", [])) != {"canary-frame", "canary-call", "canary-regroup"}:
-        raise MachineryFault("not every canary kind was planted: %s" % ctx.notes.get("canaries_rejected"))
+        ctx.defer_fault("not every canary kind was planted and rejected: %s" % ctx.notes.get("canaries_rejected"))
     ctx.notes["traces_total"] = tot
     ctx.notes["runs_ended_in_runtime_error"] = tot_ab
     ctx.notes["traces_rejected_structurally"] = tot_rej
